@@ -29,3 +29,43 @@ Theorem C18_cursive_right_to_left_flag : forall gs ltr rtl g en ex,
            else match ltr with [] => true | _ => negb (mem g ltr) end).
 Proof. exact curs_flag_spec. Qed.
 Print Assumptions C18_cursive_right_to_left_flag.
+
+(* ---- which glyphs are "of a left-to-right script": util.classifyGlyphs ----
+   Environment assumption (a hypothesis of the theorems, not an axiom): the fontTools subsetter's GSUB closure `gclose`
+   is reachability over the table's single-substitution edges G.  X: designspace rule substitutions.  L: glyphs the cmap
+   maps left-to-right characters to, N: glyphs of neutral characters. *)
+From U2F Require Import Mark.Direction Mark.DirectionProofs.
+
+Theorem C18_classified_glyphs_are_reachable : forall G gclose,
+  (forall S g, In g (gclose S) <-> reach G S g) ->
+  forall X b L N g, In g (classify gclose X b L N) -> reach ((if b then G else []) ++ X) (L ++ N) g.
+Proof. intros G gclose H X b L N g. exact (classify_sound G gclose H X b L N g). Qed.
+Print Assumptions C18_classified_glyphs_are_reachable.
+
+Theorem C18_classification_is_reachability : forall G gclose,
+  (forall S g, In g (gclose S) <-> reach G S g) ->
+  forall X b L g, In g (classify gclose X b L []) <-> reach ((if b then G else []) ++ X) L g.
+Proof. intros G gclose H X b L g. exact (classify_is_reachability G gclose H X b L g). Qed.
+Print Assumptions C18_classification_is_reachability.
+
+Theorem C18_rule_substitutes_are_classified : forall G gclose,
+  (forall S g, In g (gclose S) <-> reach G S g) ->
+  forall X b L N a s, In a L -> In (a, s) X -> In s (classify gclose X b L N).
+Proof. intros G gclose H X b L N a s. exact (classify_contains_rule_substitutes G gclose H X b L N a s). Qed.
+Print Assumptions C18_rule_substitutes_are_classified.
+
+Theorem C18_cursive_lookups_partition_by_direction : forall classified anchored g,
+  In g anchored ->
+  (In g (fst (split_lookups classified anchored)) /\ ~ In g (snd (split_lookups classified anchored)) /\ In g classified) \/
+  (In g (snd (split_lookups classified anchored)) /\ ~ In g (fst (split_lookups classified anchored)) /\ ~ In g classified).
+Proof. exact split_partition. Qed.
+Print Assumptions C18_cursive_lookups_partition_by_direction.
+
+(* repaired defect F24: applying the rule substitutions once misses n.alt.sc (rule n -> n.alt, GSUB n.alt -> n.alt.sc) *)
+Example C18_single_pass_incomplete_refuted :
+  let n := [1%Z] in let n_alt := [2%Z] in let n_alt_sc := [3%Z] in
+  let G := [(n_alt, n_alt_sc)] in let X := [(n, n_alt)] in
+  reach (G ++ X) [n] n_alt_sc /\ mem n_alt_sc (classify_once (closure G) X true [n] []) = false /\
+  mem n_alt_sc (classify (closure G) X true [n] []) = true.
+Proof. exact classify_once_incomplete_refuted. Qed.
+Print Assumptions C18_single_pass_incomplete_refuted.
